@@ -194,7 +194,19 @@ func (t *tncSim) handle(f agwFrame) {
 		if f.From != c13MyCall || f.To != c13Target {
 			t.complain("'d' frame from %q to %q", f.From, f.To)
 		}
-		t.send(agwFrame{Port: P, Kind: 'd', From: c13Target, To: c13MyCall, Data: []byte("*** DISCONNECTED From " + c13Target + "\r")})
+		ack := agwFrame{Port: P, Kind: 'd', From: c13Target, To: c13MyCall, Data: []byte("*** DISCONNECTED From " + c13Target + "\r")}
+		if sc.CloseAfter > 0 {
+			// a busy channel: right behind the acknowledgement (same TCP segment) come late data frames of
+			// the connection and traffic of other stations - while the application shuts everything down
+			b := ack.bytes()
+			for k := 0; k < 3; k++ {
+				b = append(b, agwFrame{Port: P, Kind: 'D', PID: 0xf0, From: c13Target, To: c13MyCall, Data: []byte("late")}.bytes()...)
+				b = append(b, agwFrame{Port: P, Kind: 'D', PID: 0xf0, From: "N0OTHER", To: "N0THIRD", Data: []byte("foreign station")}.bytes()...)
+			}
+			t.conn.Write(b)
+			break
+		}
+		t.send(ack)
 	case 'x':
 		if f.Port != P {
 			t.complain("'x' (unregister) frame carries port %d, the registered port is %d", f.Port, P)
@@ -207,34 +219,36 @@ func (t *tncSim) handle(f agwFrame) {
 // ---- scenarios --------------------------------------------------------------------------------
 
 type c13Scn struct {
-	Kind      string `json:"kind"` // inbound | outbound | handshake | malformed
-	Port      int    `json:"port"`
-	Frames    []int  `json:"frames,omitempty"` // inbound payload sizes
-	Foreign   int    `json:"foreign"`          // 0 none, 1 frames for another station interleaved, 2 for another port, 3 both
-	ReadBuf   int    `json:"read_buf"`         // 0 = large (4096), else bytes
-	Late      int    `json:"late"`             // reader starts only after the TNC has sent this many frames
-	OneWrite  bool   `json:"one_write"`        // TNC writes all its unsolicited frames in a single Write
-	Burst     bool   `json:"burst"`            // TNC does not wait for the host pipeline to come to rest between its unsolicited frames
-	Seg       int    `json:"seg"`              // TNC->host segmentation plan
-	Chunks    []int  `json:"chunks,omitempty"` // outbound write sizes
-	DropEvery int    `json:"drop_every"`       // the outstanding count drops by one after every n-th poll
-	HS        string `json:"hs,omitempty"`     // handshake variant
-	Digis     int    `json:"digis"`
-	Deep      bool   `json:"deep,omitempty"`           // small scenario explored one deviation deeper from the established connection on, in every tier
-	Redial    int    `json:"redial,omitempty"`         // 1: an earlier session with the same station was opened and closed first; 2: an earlier dial to it was refused
-	MaxFrame  int    `json:"max_frame,omitempty"`      // MAXFRAME in the 'g' reply minus... 0 = the default 4; -1 = MAXFRAME 0; n = MAXFRAME n
-	YBadClose bool   `json:"y_bad_in_close,omitempty"` // the malformed answers are given to the polls Close issues (its flush), not to the first poll
-	YBad      int    `json:"y_bad,omitempty"`          // the first outstanding-frames poll is answered with a data field of 0 (1), 3 (2), 8 (3), 5 (4) bytes instead of 4
-	Mal       int    `json:"mal"`
-	MalWhen   int    `json:"mal_when,omitempty"` // malformed input arrives 0: once the registration was seen; 1: after OpenPortTCP returned, digested before the application dials; 2: on the established connection, while the application reads
-	Choices   []int  `json:"choices,omitempty"`
+	Kind       string `json:"kind"` // inbound | outbound | handshake | malformed
+	Port       int    `json:"port"`
+	Frames     []int  `json:"frames,omitempty"` // inbound payload sizes
+	Foreign    int    `json:"foreign"`          // 0 none, 1 frames for another station interleaved, 2 for another port, 3 both
+	ReadBuf    int    `json:"read_buf"`         // 0 = large (4096), else bytes
+	Late       int    `json:"late"`             // reader starts only after the TNC has sent this many frames
+	OneWrite   bool   `json:"one_write"`        // TNC writes all its unsolicited frames in a single Write
+	Burst      bool   `json:"burst"`            // TNC does not wait for the host pipeline to come to rest between its unsolicited frames
+	Seg        int    `json:"seg"`              // TNC->host segmentation plan
+	Chunks     []int  `json:"chunks,omitempty"` // outbound write sizes
+	DropEvery  int    `json:"drop_every"`       // the outstanding count drops by one after every n-th poll
+	HS         string `json:"hs,omitempty"`     // handshake variant
+	Digis      int    `json:"digis"`
+	Deep       bool   `json:"deep,omitempty"`           // small scenario explored one deviation deeper from the established connection on, in every tier
+	Redial     int    `json:"redial,omitempty"`         // 1: an earlier session with the same station was opened and closed first; 2: an earlier dial to it was refused
+	MaxFrame   int    `json:"max_frame,omitempty"`      // MAXFRAME in the 'g' reply minus... 0 = the default 4; -1 = MAXFRAME 0; n = MAXFRAME n
+	YBadClose  bool   `json:"y_bad_in_close,omitempty"` // the malformed answers are given to the polls Close issues (its flush), not to the first poll
+	YBad       int    `json:"y_bad,omitempty"`          // the first outstanding-frames poll is answered with a data field of 0 (1), 3 (2), 8 (3), 5 (4) bytes instead of 4
+	CloseAfter int    `json:"close_after,omitempty"`    // inbound: the application stops reading after this many bytes and closes connection and port while the TNC is still sending
+	CtxCancel  bool   `json:"ctx_cancel,omitempty"`     // the dial context is cancelled as soon as the dial has returned (ctx, cancel := ...; defer cancel() in a dial helper)
+	Mal        int    `json:"mal"`
+	MalWhen    int    `json:"mal_when,omitempty"` // malformed input arrives 0: once the registration was seen; 1: after OpenPortTCP returned, digested before the application dials; 2: on the established connection, while the application reads
+	Choices    []int  `json:"choices,omitempty"`
 }
 
 func (s c13Scn) digis() []string { return []string{"LD5SK", "W1AW-1"}[:s.Digis] }
 
 func (s c13Scn) describe() string {
 	return fmt.Sprintf("%s port=%d frames=%v foreign=%d readbuf=%d late=%d onewrite=%v burst=%v seg=%s chunks=%v drop=%d hs=%s digis=%d mal=%d/%d ybad=%d%v redial=%d maxframe=%d",
-		s.Kind, s.Port, s.Frames, s.Foreign, s.ReadBuf, s.Late, s.OneWrite, s.Burst, c13SegName(s.Seg), s.Chunks, s.DropEvery, s.HS, s.Digis, s.Mal, s.MalWhen, s.YBad, s.YBadClose, s.Redial, s.MaxFrame)
+		s.Kind, s.Port, s.Frames, s.Foreign, s.ReadBuf, s.Late, s.OneWrite, s.Burst, c13SegName(s.Seg), s.Chunks, s.DropEvery, s.HS, s.Digis, s.Mal, s.MalWhen, s.YBad, s.YBadClose, s.Redial, s.MaxFrame) + map[bool]string{true: " dial context cancelled after the dial"}[s.CtxCancel] + map[bool]string{true: fmt.Sprintf(" close after %d bytes", s.CloseAfter)}[s.CloseAfter > 0]
 }
 
 func c13SegName(i int) string {
@@ -505,11 +519,19 @@ func c13Harness(sc c13Scn, o *c13Obs) func() {
 					defer cancel()
 					ctx = c
 				}
+				cancelDial := func() {}
+				if sc.CtxCancel {
+					ctx, cancelDial = vcontext.WithCancel(ctx)
+				}
 				conn, err = tp.DialContext(ctx, c13Target, sc.digis()...)
 				o.dialErr = err
 				if err != nil {
 					tp.Close()
 					return
+				}
+				cancelDial() // the context governs the dial only: the connection lives on
+				if sc.CtxCancel {
+					vs.WaitQuiescent()
 				}
 				vs.Mark("connected")
 			}
@@ -530,12 +552,21 @@ func c13Harness(sc c13Scn, o *c13Obs) func() {
 					want += n
 				}
 				for sc.Kind == "inbound" || len(o.read) < want {
+					if sc.CloseAfter > 0 && len(o.read) >= sc.CloseAfter {
+						break
+					}
 					n, err := conn.Read(buf)
 					o.read = append(o.read, buf[:n]...)
 					if err != nil {
 						o.readErr = err
 						break
 					}
+				}
+				if sc.CloseAfter > 0 { // hang up and shut down under incoming traffic
+					o.stage = "close"
+					o.closeErr = conn.Close()
+					o.stage = "close-port"
+					tp.Close()
 				}
 				if sc.Kind == "handshake" {
 					o.stage = "close"
@@ -576,6 +607,31 @@ func c13Harness(sc c13Scn, o *c13Obs) func() {
 	}
 }
 
+func c13Wanted(sc c13Scn) []byte {
+	var want []byte
+	for k, n := range sc.Frames {
+		want = append(want, c13Payload(k, n)...)
+	}
+	return want
+}
+
+// closeSendRaces: a channel send that is not ordered with the close of the channel panics in another
+// schedule ("send on closed channel" ends the process) - reported from every schedule in which the
+// two are seen unordered.
+func closeSendRaces(res *vs.Result) (out [][2]string) {
+	for _, rc := range res.Races {
+		if rc.Loc != "chan.close-vs-send" {
+			continue
+		}
+		sender, closer := rc.ASite, rc.BSite
+		if rc.AWrite {
+			sender, closer = closer, sender
+		}
+		out = append(out, [2]string{"possible-send-on-closed-channel|" + sender, fmt.Sprintf("the send in %s (thread %s) and the close in %s (thread %s) are not ordered by happens-before: in another schedule the send panics", sender, rc.A, closer, rc.B)})
+	}
+	return
+}
+
 type c13Finding struct{ Class, Detail string }
 
 const c13DropSite = "demux.Enqueue"
@@ -591,6 +647,9 @@ func c13Judge(sc c13Scn, o *c13Obs, res *vs.Result) (out []c13Finding, poisoned 
 	if res.Outcome == "panic" {
 		add("panic|"+res.Panic.Site, "%s (thread %s)", res.Panic.Value, res.Panic.Thread)
 		return
+	}
+	for _, f := range closeSendRaces(res) {
+		add(f[0], "%s", f[1])
 	}
 	if poisoned {
 		add("frame-dropped|"+c13DropSite, "the demultiplexer's non-blocking enqueue took its default branch and dropped a TNC frame (%d times); outcome %s at stage %s", sumDefaults(res.DefaultsTaken, c13DropSite), res.Outcome, o.stage)
@@ -620,6 +679,12 @@ func c13Judge(sc c13Scn, o *c13Obs, res *vs.Result) (out []c13Finding, poisoned 
 		if o.openErr != nil || o.dialErr != nil {
 			add("setup-fails", "open: %v dial: %v", o.openErr, o.dialErr)
 			return
+		}
+		if sc.CloseAfter > 0 {
+			if !bytes.HasPrefix(c13Wanted(sc), o.read) {
+				add("inbound-stream-altered", "Read returned %d bytes that are not a prefix of what the connection's frames carry", len(o.read))
+			}
+			return // beyond that: every call returns and nothing crashes
 		}
 		var want []byte
 		for k, n := range sc.Frames {
@@ -792,6 +857,12 @@ func c13Scenarios(thorough bool) []c13Scn {
 	// in the way), and the MAXFRAME values of the 'g' reply
 	for _, rd := range []int{1, 2} {
 		out = append(out, c13Scn{Kind: "outbound", Chunks: []int{300, 1}, DropEvery: 1, Redial: rd}, c13Scn{Kind: "inbound", Frames: []int{5, 6}, DropEvery: 1, Redial: rd})
+	}
+	for _, ow := range []bool{false, true} { // the application hangs up and shuts the port down while the TNC is still sending
+		out = append(out, c13Scn{Kind: "inbound", Frames: []int{5, 6, 7, 8}, DropEvery: 1, Burst: true, OneWrite: ow, CloseAfter: 5})
+	}
+	for _, dg := range []int{0, 1} { // the dial context ends once the dial has returned
+		out = append(out, c13Scn{Kind: "outbound", Chunks: []int{300, 1}, DropEvery: 1, CtxCancel: true, Digis: dg}, c13Scn{Kind: "inbound", Frames: []int{5, 6}, DropEvery: 1, CtxCancel: true, Digis: dg})
 	}
 	for _, mf := range []int{-1, 1, 2, 7} {
 		out = append(out, c13Scn{Kind: "outbound", Chunks: []int{300, 300, 1}, DropEvery: 1, MaxFrame: mf}, c13Scn{Kind: "outbound", Chunks: []int{1}, DropEvery: 2, MaxFrame: mf})
